@@ -224,7 +224,13 @@ def run_property(plan: Plan, tier: str, seed: int, contracts_mod_names, replay=N
         except Exception:
             faults.append(f"extra prover {getattr(ex, '__name__', ex)}: {traceback.format_exc(limit=4)}")
     t_s = time.time()
-    smt.discharge(all_obls, lambda o: o.eng.facts[:o.nfacts], timeout_s=timeout, seed=seed if tier == "thorough" else 0)
+    # only the obligations that carry this property (plus vacuity probes) are posed; the others belong to the checks of
+    # the properties they are tagged with
+    todo = [o for o in all_obls if pid in o.props or o.kind in ("cover", "must_fail")]
+    skipped = [o for o in all_obls if o not in todo]
+    for o in skipped:
+        o.result, o.backend, o.time, o.model, o.reason = "not-posed", "-", 0.0, "", ""
+    smt.discharge(todo, lambda o: o.eng.facts[:o.nfacts], timeout_s=timeout, seed=seed if tier == "thorough" else 0)
     solver_wall = time.time() - t_s
     everything = all_obls + extra_results
     mine = [o for o in everything if pid in o.props or o.kind in ("cover", "must_fail")]
